@@ -268,7 +268,7 @@ def main(argv):
         'valid_descriptions_round_tripped': sum(1 for c in cases if c.get('valid') and c['obs']['outcome'] == 'ok' and not c['obs'].get('round')),
         'model_mismatches': len(mism), 'monitor_failures': len(bad),
     })
-    rep.samples = [{k: v for k, v in c.items() if k != 'coq'} for c in cases if c['kind'] in ('enc', 'mut', 'kernelword')][:3]
+    rep.samples = [{k: v for k, v in c.items() if k != 'coq'} for c in cases if c['kind'] in ('enc', 'mut', 'kernelword', 'listing')][:3]
 
     if bad:
         i, msg = bad[0]
